@@ -153,5 +153,25 @@ BlankStrs == {<<>>} \cup {<<a>> : a \in Blank} \cup {<<a, b>> : a, b \in Blank} 
 EmitBlank ==
   vSeq = <<>> => \A s \in BlankStrs :
      PrintT(ToJson([i |-> s, e |-> [st |-> "ok", o |-> OptsInit, t |-> TrueNode, mayrej |-> FALSE], tag |-> "C06"]))
+\* an input holding only options, with leading / trailing / inner blanks of every kind, means the same
+\* as its canonical spelling (tree -true, the options registered)
+OptRuns == << <<Cp("-depth")>>, <<Cp("-threads 4")>>, <<Cp("-depth"), Cp("-threads 16")>>, <<Cp("-threads 2"), Cp("-depth"), Cp("-threads 8")>> >>
+Seps == << <<cSP>>, <<cTAB>>, <<cLF>>, <<cCR, cLF>>, <<cSP, cSP>> >>
+Edges == << <<>>, <<cSP>>, <<cTAB>>, <<cLF>>, <<cCR, cLF>>, <<cSP, cTAB, cSP>> >>
+EmitOptionsOnly ==
+  vSeq = <<>> =>
+    \A r \in 1..Len(OptRuns) : \A a \in 1..Len(Edges) : \A b \in 1..Len(Edges) : \A m \in 1..Len(Seps) :
+      LET txt == Edges[a] \o Join(OptRuns[r], Seps[m]) \o Edges[b]
+          canon == ParseText(Join(OptRuns[r], <<cSP>>))
+      IN /\ ParseText(txt) = canon
+         /\ PrintT(ToJson([i |-> txt, e |-> canon, tag |-> "C06"]))
+\* ... and in front of an expression the same run, however spaced, leaves the expression untouched
+EmitOptionsFront ==
+  (Len(vSeq) = 2 /\ vSeq[2] = 0 /\ vSeq[1] % 7 = 0) =>
+    \A r \in 1..Len(OptRuns) : \A m \in 1..Len(Seps) : \A b \in 1..Len(Edges) :
+      LET body == CanonText(vSeq[1])
+          txt == Join(OptRuns[r], Seps[m]) \o Seps[m] \o body \o Edges[b]
+          canon == ParseText(Join(OptRuns[r], <<cSP>>) \o <<cSP>> \o body)
+      IN PrintT(ToJson([i |-> txt, e |-> canon, tag |-> "C06"]))
 InvBlank == vSeq = <<>> => \A s \in BlankStrs : ParseText(s).st = "ok" /\ ParseText(s).t = TrueNode
 =============================================================================
